@@ -158,7 +158,9 @@ EnvSeq(q, W) == Extend(q, W, 1, <<>>, BoundSet(q))
 \* the condition a query stands for: not_ applied to the descriptor itself - not_(entity(x, c1, c2)) - negates the
 \* conjunction of the descriptor's conditions
 TopCond(q) == IF "notdesc" \in DOMAIN q /\ q.notdesc THEN [k |-> "not", c |-> q.cond, form |-> "fn"] ELSE q.cond
-SatSeq(q, W) == SelectSeq(EnvSeq(q, W), LAMBDA env : Holds(TopCond(q), env, q, W) /\ FieldsHold(q, env, W))
+\* a selected expression on a sub-query - set_of([x, an(entity(y, c)).n]) - restricts y to the sub-query's solutions
+SelSides(q, env, W) == \A k \in 1..Len(q.sel) : Side(q.sel[k], env, q, W)
+SatSeq(q, W) == SelectSeq(EnvSeq(q, W), LAMBDA env : Holds(TopCond(q), env, q, W) /\ FieldsHold(q, env, W) /\ SelSides(q, env, W))
 RowOf(q, W, env) == [k \in 1..Len(q.sel) |-> Val(q.sel[k], env, q, W)]
 \* the rows of the query, one per satisfying assignment, in domain order
 RowSeq(q, W) == LET s == SatSeq(q, W) IN [i \in 1..Len(s) |-> RowOf(q, W, s[i])]
